@@ -7,8 +7,11 @@ LEVEL = "proof"
 RULE = ("random multifurcating trees (3..14 tips, 20 in thorough; rooted/unrooted; parent slot at random positions; lengths "
         "all/mixed/none with zeros; supports; named inner nodes; node and branch comments) x "
         "clone x 12 edits (rename, length, support, comment, clear all / branch / node comments then add new ones, every mutable field "
-        "of every node and branch, writes through the existing comment slices, removetip, reroot, graft) applied to the copy then, on a "
-        "fresh pair, to the original, with and without ReinitIndexes; subtree at every node index (inner nodes and tips) x edit; "
+        "of every node and branch, writes through the existing comment slices, removetip, reroot, graft, ReinitIndexes alone, ShuffleTips, "
+        "swap of two tip names + ReinitIndexes, reroot + ReinitIndexes) applied to the copy then, on a "
+        "fresh pair, to the original, the source indexed (ReinitIndexes) before the copy in 85% of the cases; besides the dump and the "
+        "text, the twin's index state (per branch bitset bits, tip counts, hash code; per tip its id) is re-read after the edit and must "
+        "be unchanged and be the index of the twin's own tree (SameBipartition against an independently built and indexed tree); subtree at every node index (inner nodes and tips) x edit; "
         "merge of two rooted trees on disjoint tips, plus unrooted / overlapping / no-index pairs (refusals); graft of a second "
         "tree (rooted or not) on every tip, plus absent tip / no index / overlapping names; insert identical tips: groups with "
         "one existing member and 1..3 new names on tip branches of length zero / positive / absent, chained groups (a group anchored "
@@ -45,7 +48,9 @@ def _has_branch_comment(t):
 MATCHERS = {}
 
 EDITS = ["rename", "length", "support", "comment", "clearcomments", "removetip", "reroot", "graft",
-         "clearedgecomments", "clearnodecomments", "allfields", "overwritecomments"]
+         "clearedgecomments", "clearnodecomments", "allfields", "overwritecomments",
+         "reindex", "shuffle", "swapreindex", "rerootreindex"]
+INDEX_EDITS = ["reindex", "shuffle", "swapreindex", "rerootreindex", "reroot", "removetip"]
 COMMENT_EDITS = ["clearcomments", "clearedgecomments", "clearnodecomments", "allfields", "overwritecomments", "comment"]
 
 def enrich_comments(rng, t):
@@ -136,8 +141,10 @@ def gen(rng, tier):
         eds = rng.sample(EDITS, 3)
         if rich:
             eds = list(dict.fromkeys(eds + COMMENT_EDITS))
+        else:
+            eds = list(dict.fromkeys(eds + INDEX_EDITS))
         for ed in eds:
-            add({"op": Sym("clone"), "tree": T(t), "edit": Sym(ed), "reinit": rng.random() < 0.5},
+            add({"op": Sym("clone"), "tree": T(t), "edit": Sym(ed), "reinit": rng.random() < 0.85},
                 op="clone", edit=ed, branch_comments=hasbc, ntips=len(leaves(t)))
     # ---- subtree
     for k in range(N):
@@ -151,8 +158,8 @@ def gen(rng, tier):
         pick = inner if tier != "search" else rng.sample(inner, min(3, len(inner)))
         pick = pick + rng.sample(tipsi, 1)
         for i in pick:
-            ed = rng.choice(COMMENT_EDITS if (k % 2 == 0 and rng.random() < 0.7) else EDITS)
-            add({"op": Sym("subtree"), "tree": T(t), "i": i, "edit": Sym(ed), "reinit": rng.random() < 0.5},
+            ed = rng.choice(COMMENT_EDITS if (k % 2 == 0 and rng.random() < 0.7) else (INDEX_EDITS if rng.random() < 0.6 else EDITS))
+            add({"op": Sym("subtree"), "tree": T(t), "i": i, "edit": Sym(ed), "reinit": rng.random() < 0.85},
                 op="subtree", edit=ed, at=("root" if i == 0 else ("inner" if kids(nodes[i]) else "tip")), ntips=len(leaves(t)))
     # ---- merge
     for _ in range(N * 2):
